@@ -176,12 +176,17 @@ func (m *model) stamp(s step) step {
 	return s
 }
 
-func changeParams(ver int, eds []edit) string {
+func changeParams(ver int, eds []edit, cur ...string) string {
 	var cc []string
 	for _, ed := range eds {
-		if ed.Full {
+		switch {
+		case ed.Full:
 			cc = append(cc, `{"text":`+js(ed.Text)+`}`)
-		} else {
+		case ed.WithLen && len(eds) == 1 && len(cur) == 1 && inContract(cur[0], ed):
+			so, _ := locate(cur[0], ed.S)
+			eo, _ := locate(cur[0], ed.E)
+			cc = append(cc, fmt.Sprintf(`{"range":{"start":%s,"end":%s},"rangeLength":%d,"text":%s}`, posJSON(ed.S), posJSON(ed.E), utf16Len(cur[0][so:eo]), js(ed.Text)))
+		default:
 			cc = append(cc, `{"range":{"start":`+posJSON(ed.S)+`,"end":`+posJSON(ed.E)+`},"text":`+js(ed.Text)+`}`)
 		}
 	}
@@ -197,7 +202,11 @@ func openStep(m *model, name, text string, i int) step {
 }
 
 func changeStep(m *model, name string, i int, eds ...edit) step {
-	s := notification(name, "textDocument/didChange", changeParams(10+i, eds))
+	var cur []string
+	if m.doc != nil && !m.doc.tainted && m.exited < 0 {
+		cur = []string{m.doc.text}
+	}
+	s := notification(name, "textDocument/didChange", changeParams(10+i, eds, cur...))
 	s.edClass, s.pClass = m.change(10+i, eds)
 	return m.stamp(s)
 }
@@ -284,6 +293,7 @@ func alphabet() []item {
 		changeItem("chg-full", edit{Full: true, Text: docF}),
 		changeItem("chg-full-k", edit{Full: true, Text: docK}),
 		changeItem("chg-in", edit{S: pos{0, 8}, E: pos{0, 9}, Text: "x"}),                    // behind 'é' in docU
+		changeItem("chg-in-len", edit{S: pos{0, 7}, E: pos{0, 9}, Text: "x", WithLen: true}), // with rangeLength; replaces 'é' in docU
 		changeItem("chg-lines", edit{S: pos{0, 3}, E: pos{1, 2}, Text: "\n"}),                // spans a line break
 		changeItem("chg-eol", edit{S: pos{1, 4}, E: pos{1, 1000}, Text: " 1;"}),              // end past the end of the line
 		changeItem("chg-eof-end", edit{S: pos{1, 0}, E: pos{99, 0}, Text: ""}),               // end past the end of the document
@@ -390,7 +400,9 @@ func alphabet() []item {
 		// ---- document notifications without a "params" member: invalid, so they change nothing - in particular they
 		// must not act on whatever the previous message carried
 		{"chg-noparams", func(m *model, i int) step { return m.stamp(notification("chg-noparams", "textDocument/didChange", "")) }},
-		{"close-noparams", func(m *model, i int) step { return m.stamp(notification("close-noparams", "textDocument/didClose", "")) }},
+		{"close-noparams", func(m *model, i int) step {
+			return m.stamp(notification("close-noparams", "textDocument/didClose", ""))
+		}},
 		{"open-noparams", func(m *model, i int) step { return m.stamp(notification("open-noparams", "textDocument/didOpen", "")) }},
 		{"save-noparams", func(m *model, i int) step { return m.stamp(notification("save-noparams", "textDocument/didSave", "")) }},
 		// ---- messages that are neither a request nor a notification
